@@ -274,6 +274,10 @@ def _worker(args) -> Tuple[str, Any]:
         faulthandler.cancel_dump_traceback_later()
         return ("ok", col)
     except BaseException:
+        try:
+            faulthandler.cancel_dump_traceback_later()
+        except Exception:
+            pass
         return ("err", f"job {jobname} {kwargs}:\n" + traceback.format_exc())
 
 
